@@ -1,1 +1,35 @@
 // Kani contract harnesses for /repo/arrow-ipc/src/reader.rs (child module: sees private items via super::)
+use super::*;
+#[path = "/verif/kani/support/spec.rs"]
+mod spec;
+use spec::*;
+
+// ---- C18 footer ----
+
+// Contract (C18, C08): for every 10-byte file tail, read_footer_length returns Ok(n) exactly when bytes
+// 4..10 are the magic "ARROW1" AND the little-endian i32 in bytes 0..4 is non-negative; n is then exactly
+// that integer (no wrap-around of a negative length into a huge usize). Any other tail — a file cut
+// anywhere, garbage, a negative length — is an Err, never a panic.
+// (The brief words the length condition as "> 0"; the code — and the format — accept 0, which the caller
+// then rejects when it parses an empty footer. The contract states ">= 0"; see REPORT.)
+// Stub: alloc::fmt::format.
+// @unit name=ipc_read_footer_length props=C18,C08 kind=complete fns=read_footer_length
+#[kani::proof]
+#[kani::stub(alloc::fmt::format, stub_format)]
+fn ipc_read_footer_length() {
+    let b: [u8; 10] = kani::any();
+    let r = read_footer_length(b);
+    let magic_ok = b[4] == 0x41 && b[5] == 0x52 && b[6] == 0x52 && b[7] == 0x4f && b[8] == 0x57 && b[9] == 0x31;
+    // little-endian two's complement, computed in 64 bits
+    let raw = (b[0] as i64) | (b[1] as i64) << 8 | (b[2] as i64) << 16 | (b[3] as i64) << 24;
+    let len = if raw >= 1 << 31 { raw - (1 << 32) } else { raw };
+    assert!(r.is_ok() == (magic_ok && len >= 0));
+    if let Ok(n) = &r {
+        assert!(*n as i64 == len);
+    }
+    kani::cover!(r.is_ok() && len == i32::MAX as i64);
+    kani::cover!(r.is_ok() && len == 0);
+    kani::cover!(r.is_err() && magic_ok && len == -1);
+    kani::cover!(r.is_err() && !magic_ok && b[4] == 0x41 && b[5] == 0x52 && b[6] == 0x52 && b[7] == 0x4f && b[8] == 0x57);
+    std::mem::forget(r);
+}
